@@ -112,6 +112,8 @@ func VxC02Agg() {
 	vxAssert(err == nil, "analysis-accepts-template")
 	err = EvalProgram(pi, store)
 	vxReach("evaluated")
+	vxObserve("eval-error", err != nil)
+	vxObserve("facts-after-eval", store.EstimateFactCount())
 	vxAssert(err == nil, "eval-no-error")
 	unsafe, conv := ref.vxRefEval(t.rules, 30)
 	vxAssert(!unsafe && conv && ref.err == nil, "reference-evaluates")
